@@ -180,6 +180,10 @@ def main():
         preds = getattr(mod, "KNOWN_PREDICATES", {})
         for f in ctx.failures:
             hit = None
+            if new_fail and not new_fail[0].get("correspondence_only"):
+                # one failure that no known finding explains is enough for the verdict: the (costly) attribution of the others is skipped
+                new_fail.append(f)
+                continue
             for e in kf.get("findings", []):
                 if e["property"] == prop and e.get("predicate") in preds and preds[e["predicate"]](f):
                     hit = e
